@@ -5,6 +5,7 @@ import (
 	"go/token"
 	"os"
 	"sort"
+	"strings"
 
 	"golang.org/x/tools/go/ssa"
 )
@@ -358,7 +359,179 @@ func rulePattern(c *Ctx) *RuleResult {
 			}
 		}
 	}
+
+	// (d) a range a-b with a > b is empty: in byteRange every addition to the set is
+	// inside the loop, i.e. behind a comparison of a value derived from the first bound
+	// with one derived from the second
+	if br := p.Func(pkg, "byteRange"); br == nil || len(br.Params) != 2 {
+		r.broken("anchor unresolved: pattern.byteRange(a, b)")
+	} else {
+		gc := newGuardCtx(br)
+		nAdd := 0
+		forEachInstr(br, func(ins ssa.Instruction) {
+			call, ok := ins.(ssa.CallInstruction)
+			if !ok || !calleeNamedCI(call, "add") {
+				return
+			}
+			nAdd++
+			guarded := false
+			for _, ge := range gc.MustEdges(ins.Block()) {
+				rel, ok := ge.Relation()
+				if !ok {
+					continue
+				}
+				sa, sb := backSliceAllocs(rel.A, false), backSliceAllocs(rel.B, false)
+				switch rel.Op {
+				case token.LSS, token.LEQ: // (from a) <= (from b)
+					if sa[br.Params[0]] && sb[br.Params[1]] {
+						guarded = true
+					}
+				case token.GTR, token.GEQ: // (from b) >= (from a)
+					if sa[br.Params[1]] && sb[br.Params[0]] {
+						guarded = true
+					}
+				}
+			}
+			if guarded {
+				r.ok("(d) byteRange: an addition to the set is behind a test that a value running from the first bound has not passed the second")
+			} else {
+				r.fail("range-adds-unconditionally", p.InstrPos(ins), "byteRange adds a byte to the set without having compared the two bounds on the way: a reversed range such as [z-a], which is empty, then contains that byte (string.find('a', '[b-a]') found 'a')")
+			}
+		})
+		r.count("byteRange_additions", nAdd)
+		r.floor("byteRange_additions", 1)
+	}
+
+	// (e) gsub: whether anything was substituted is not read off the length of the output
+	if gs := p.Func("lib/stringlib", "gsub"); gs == nil {
+		r.broken("anchor unresolved: lib/stringlib.gsub")
+	} else {
+		badAt := ""
+		forEachInstr(gs, func(ins ssa.Instruction) {
+			iff, ok := ins.(*ssa.If)
+			if !ok {
+				return
+			}
+			for w := range backSliceAllocs(iff.Cond, false) {
+				if call, ok := w.(*ssa.Call); ok {
+					if cal := call.Call.StaticCallee(); cal != nil && fullName(cal) == "(*strings.Builder).Len" {
+						// only when compared with zero
+						if bo, ok := iff.Cond.(*ssa.BinOp); ok {
+							if k, isC := constInt(bo.Y); isC && k == 0 {
+								badAt = p.InstrPos(iff)
+							}
+							if k, isC := constInt(bo.X); isC && k == 0 {
+								badAt = p.InstrPos(iff)
+							}
+						}
+					}
+				}
+			}
+		})
+		if badAt == "" {
+			r.ok("(e) gsub does not decide 'nothing was substituted' from the builder's length")
+		} else {
+			r.fail("gsub-empty-output-taken-for-no-substitution", badAt, "gsub tests the length of the string it is building against zero to decide that nothing was substituted and returns its input: substituting matches by the empty string leaves that length at zero, so ('abc'):gsub('.', '') returned 'abc' 3")
+		}
+	}
+
+	// (f) the anchor: (*Pattern).Match ignores a leading '^' (it tries every start
+	// position), so it may be called only where the caret has been neutralised — the
+	// gmatch iterator, whose pattern is compiled from a string that has had '%' put
+	// in front of a leading '^' (in gmatch the caret stands for itself). Every other
+	// search goes through an entry that reads Pattern.startAnchor.
+	if mf := p.Func(pkg, "(*Pattern).Match"); mf == nil {
+		r.broken("anchor unresolved: pattern.(*Pattern).Match")
+	} else {
+		readsAnchor := func(f *ssa.Function) bool {
+			found := false
+			seen := map[*ssa.Function]bool{}
+			var walk func(g *ssa.Function, d int)
+			walk = func(g *ssa.Function, d int) {
+				if g == nil || seen[g] || g.Blocks == nil || d > 4 {
+					return
+				}
+				seen[g] = true
+				forEachInstr(g, func(ins ssa.Instruction) {
+					switch x := ins.(type) {
+					case *ssa.FieldAddr:
+						if _, _, fn := fieldOfAddr(x); fn == "startAnchor" {
+							if x.Referrers() != nil {
+								for _, ref := range *x.Referrers() {
+									if u, ok := ref.(*ssa.UnOp); ok && u.Op == token.MUL {
+										found = true
+									}
+								}
+							}
+						}
+					case *ssa.Field:
+						if _, _, fn := fieldOfField(x); fn == "startAnchor" {
+							found = true
+						}
+					case ssa.CallInstruction:
+						if cal := x.Common().StaticCallee(); cal != nil && p.InModule(cal) {
+							walk(cal, d+1)
+						}
+					}
+				})
+				for _, af := range g.AnonFuncs {
+					walk(af, d+1)
+				}
+			}
+			walk(f, 0)
+			return found
+		}
+		if readsAnchor(mf) {
+			r.ok("(f) (*Pattern).Match reads the anchor")
+		} else {
+			nCallers := 0
+			for _, f := range p.ModFuncs() {
+				if f.Blocks == nil {
+					continue
+				}
+				forEachInstr(f, func(ins ssa.Instruction) {
+					call, ok := ins.(ssa.CallInstruction)
+					if !ok || call.Common().StaticCallee() != mf {
+						return
+					}
+					nCallers++
+					owner := f
+					for owner.Parent() != nil {
+						owner = owner.Parent()
+					}
+					okCaller := false
+					if fnKey(owner) == "lib/stringlib.gmatch" {
+						// the pattern compiled by gmatch has had a leading caret escaped
+						forEachInstr(owner, func(i2 ssa.Instruction) {
+							c2, ok := i2.(ssa.CallInstruction)
+							if !ok || c2.Common().StaticCallee() != newF {
+								return
+							}
+							for w := range backSliceAllocs(c2.Common().Args[0], false) {
+								if bo, ok := w.(*ssa.BinOp); ok && bo.Op == token.ADD {
+									if k, ok := bo.X.(*ssa.Const); ok && k.Value != nil && strings.Contains(k.Value.ExactString(), "%") {
+										okCaller = true
+									}
+								}
+							}
+						})
+					}
+					if okCaller {
+						r.ok("(f) (*Pattern).Match is called by the gmatch iterator, whose pattern has had a leading '^' escaped")
+					} else {
+						r.fail("anchor-ignored:"+fnKey(owner), p.InstrPos(ins), fmt.Sprintf("%s searches with (*Pattern).Match, which tries every start position and never looks at the pattern's '^': an anchored pattern then matches in the middle of the subject — ('aaa'):gsub('^a', 'b') returned 'bbb' 3", fnKey(owner)))
+					}
+				})
+			}
+			r.count("callers_of_anchor_blind_search", nCallers)
+		}
+	}
 	return r
+}
+
+func calleeNamedCI(call ssa.CallInstruction, name string) bool {
+	cal := call.Common().StaticCallee()
+	return cal != nil && cal.Name() == name
 }
 
 func firstPositioned(b *ssa.BasicBlock) ssa.Instruction {
